@@ -1,0 +1,24 @@
+//go:build verif
+
+// Contracts for the dependency-injection container, read by /verif/govc.  The getters have
+// empty contracts: what is checked here are the REFINEMENT obligations at the places where a
+// concrete repository or use case is handed to a consumer as an interface value (the edges the
+// unit tests cut with mocks): the implementation's contract must imply the consumer's
+// interface contract.
+package di
+
+//@ func (*Container).Badger
+//@ func (*Container).Cleaner
+//@ func (*Container).ContentFileRepo
+//@ func (*Container).ContentRepo
+//@ func (*Container).Core
+//@ func (*Container).Dir
+//@ func (*Container).DirRepo
+//@ func (*Container).FileRepo
+//@ func (*Container).Gen
+//@ func (*Container).Pool
+//@ func (*Container).Rand
+//@ func (*Container).Store
+//@ func (*Container).StoreService
+//@ func (*Container).Transaction
+//@ func (*Container).TransactionRepo
